@@ -47,6 +47,8 @@ type SrvCase struct {
 	Rec      string   `json:"rec"`    // none | match | mismatch | invalid
 	ProvEnts []string `json:"provents"` // sender+ok sender+none other+ok sender+filtered sender+mixed sender+undec sender+huge
 	Stuff    int      `json:"stuff"`  // closer/provider peers stuffed into the request (echo test)
+	PreRec   bool     `json:"prerec"` // the node already holds a better record (V2) for the key of a PUT_VALUE
+	UnkType  int      `json:"unktype"` // UNKNOWN: the numeric message type (99, 6, -1, the smallest int32)
 	Garbage  string   `json:"garbage"` // none | bytes | trunc | oversize | emptyframe
 }
 
@@ -230,6 +232,16 @@ func runSrvInBubble(t *testing.T, sc *SrvCase) []sim.Ev {
 	typ := map[string]pb.Message_MessageType{"PUT_VALUE": pb.Message_PUT_VALUE, "GET_VALUE": pb.Message_GET_VALUE,
 		"ADD_PROVIDER": pb.Message_ADD_PROVIDER, "GET_PROVIDERS": pb.Message_GET_PROVIDERS, "FIND_NODE": pb.Message_FIND_NODE,
 		"PING": pb.Message_PING, "UNKNOWN": pb.Message_MessageType(99)}[sc.Typ]
+	if sc.Typ == "UNKNOWN" && sc.UnkType != 0 {
+		typ = pb.Message_MessageType(int32(sc.UnkType))
+	}
+	preRec := false
+	if sc.PreRec && sc.Values && sc.Typ == "PUT_VALUE" && len(key) > 0 {
+		// the node already holds a record the validator prefers to the one offered (V1)
+		if err := records.NewValueStore(valDS, anyValidator{}, 0).Put(bg, string(key), &recpb.Record{Key: key, Value: []byte("V2")}); err == nil {
+			preRec = true
+		}
+	}
 	req := &pb.Message{Type: typ, Key: key}
 	switch sc.Rec {
 	case "match":
@@ -383,6 +395,7 @@ func runSrvInBubble(t *testing.T, sc *SrvCase) []sim.Ev {
 		}
 	}
 	ev["storedsender"], ev["storedother"], ev["storedaddrsok"], ev["storedval"] = storedSender, storedOther, storedAddrsOK, storedVal
+	ev["prerec"] = preRec
 	// the node keeps serving other peers
 	alive := true
 	if sc.Mode == "server" {
@@ -433,6 +446,10 @@ func genSrvCase(r *rand.Rand) *SrvCase {
 	sc.Rec = "none"
 	if sc.Typ == "PUT_VALUE" || r.Intn(10) == 0 {
 		sc.Rec = []string{"match", "match", "mismatch", "invalid", "none"}[r.Intn(5)]
+	}
+	sc.PreRec = sc.Typ == "PUT_VALUE" && r.Intn(3) == 0
+	if sc.Typ == "UNKNOWN" {
+		sc.UnkType = []int{99, 6, -1, -2147483648}[r.Intn(4)]
 	}
 	if sc.Typ == "ADD_PROVIDER" || r.Intn(12) == 0 {
 		ents := []string{"sender+ok", "sender+none", "other+ok", "sender+filtered", "sender+mixed", "sender+undec", "sender+huge"}
